@@ -64,6 +64,10 @@ type RawServer struct {
 
 func NewRawServer(h func(id int, c net.Conn)) *RawServer {
 	ln, err := net.Listen("tcp", "127.0.0.1:0")
+	for i := 0; err != nil && i < 100; i++ { // ephemeral ports exhausted by TIME_WAIT sockets of a busy machine: wait
+		time.Sleep(100 * time.Millisecond)
+		ln, err = net.Listen("tcp", "127.0.0.1:0")
+	}
 	if err != nil {
 		panic(err)
 	}
